@@ -61,6 +61,11 @@ def gen_hist(seed: int, n: int) -> List[Dict[str, Any]]:
                 ops.append(rng.choice([["run_last", rng.choice(MODES)], ["run", rng.randint(1, max(1, sent + 2)), rng.choice(MODES)]]))
         for _ in range(rng.randint(0, 5)):
             ops.append(["run_last", rng.choice(MODES)])
+        if len(out) % 3 == 1:                    # at-least-once delivery: some message is handed to the worker a second time
+            ran = [o for o in ops if o[0] == "run"]
+            if ran:
+                o = rng.choice(ran)
+                ops.append(["rerun", o[1], rng.choice(MODES)])
         if len(out) % 5 == 3:                    # the broker refuses the re-send of a failed attempt
             ops = [(o[:-1] + ["failk"]) if o[0] in ("run", "run_last") and o[-1] == "fail" else o for o in ops]
         cfg["noparse"] = len(out) % 4 == 1       # worker started with --no-parse
